@@ -17,7 +17,7 @@ TInit == PPInit /\ l = 1
 TNext ==
     \/ Is("reset") /\ P_PortsReset
     \/ Is("bind") /\ P_Bind(E.proto, E.s, E.p, E.res)
-    \/ Is("connect") /\ P_Connect(E.s, E.res)
+    \/ Is("connect") /\ (IF E.how = "hang" THEN P_ConnectPending(E.s, E.res) ELSE P_Connect(E.s, E.res))
     \/ Is("accept") /\ P_Accept(E.s, E.l, E.res)
     \/ Is("drop") /\ P_Drop(E.s)
     \/ Is("drop_half") /\ P_DropHalf(E.s, E.h)
